@@ -9,4 +9,5 @@ def run(tier, seed):
     c.bounds = {'routes': '25 single routes; 4 sources x 6 moves x 6 moves two-step routes', 'arities': 'parameters 0..4 with and without rest x 0..5 arguments', 'templates': len(ts)}
     c.outside = ['routes of more than two moves']
     c.run_family('calls', ts, ('exit', 'stdout', 'stderr-empty', 'panic', 'hang'), calls.role)
+    c.run_random(('exit', 'stdout', 'stderr-empty', 'panic', 'hang'))
     return c.finish()
